@@ -606,6 +606,30 @@ impl<'a> PairFn for Conf<'a> {
                 }
             }
         }
+        // the seed: public inputs that differ only by a trailing ONE or ZERO element - the values a padding rule of the
+        // hasher can confuse with "nothing" - still give different challenges, whatever the length of the statement
+        // modulo the hasher's rate (8 consecutive lengths)
+        {
+            let first_draw = |p: &SpecPub<B>| -> Option<Ev> {
+                let _ = take_log();
+                let _ = verify_with::<B, H, RecCoin<H>>(proof.clone(), p, &lenient());
+                take_log().into_iter().find(|e| matches!(e, Ev::Draw(..)))
+            };
+            'outer: for k in 0..8usize {
+                let mut pa = pubs.clone();
+                pa.extra = vec![B::mk(7); k];
+                let Some(da) = first_draw(&pa) else { continue };
+                for ext in [B::ONE, B::ZERO] {
+                    let mut pb = pa.clone();
+                    pb.extra.push(ext);
+                    out.evals(1);
+                    if first_draw(&pb).as_ref() == Some(&da) {
+                        out.violation(format!("{pname}: the first challenge does not depend on a trailing element of the public inputs"), json!({"case": info(), "extra_elements": k, "appended": if ext == B::ONE { "ONE" } else { "ZERO" }}));
+                        break 'outer;
+                    }
+                }
+            }
+        }
         out.nontrivial();
     }
 }
@@ -677,7 +701,7 @@ fn points(thorough: bool) -> Vec<Point> {
 pub fn subs(run: &Arc<Run>) -> Vec<Arc<dyn Sub>> {
     let thorough = run.tier().is_thorough();
     let seed = run.seed();
-    run.rule("configurations: single and multi-segment shapes (6 auxiliary kinds incl. Lagrange/GKR), 3 extensions, grinding {0,1,8}, folding {2,4,8,16}, trace lengths 8..256 x remainder degrees giving 0..7 FRI layers, every rule and assertion set of the family, x (field, hasher) pairs; for each: a stateright model of the transcript for that configuration is explored exhaustively (invariant: challenge classes are drawn only inside their protocol window); the real prover and the real verify() run with a recording coin and both logs must be behaviours of the model, every absorbed value equal to the value carried in the proof (seed = context || public inputs, roots, OOD hashes recomputed from the proof bytes, FRI commitments, nonce), element types as the options name; prover and verifier logs equal on all used challenges; the nonce replaced by each member of a boundary alphabet (multiples of the modulus, single-bit changes, extremes) must reach the coin unchanged and give pairwise different positions; every context/options parameter changes the coin seed; dependency matrix: one bit of each prover message (every OOD value) flipped => every later challenge changes and every earlier one stays, different public inputs => every challenge changes; non-trivial = configuration whose two logs were replayed (2 traces validated against the implementation each)");
+    run.rule("configurations: single and multi-segment shapes (6 auxiliary kinds incl. Lagrange/GKR), 3 extensions, grinding {0,1,8}, folding {2,4,8,16}, trace lengths 8..256 x remainder degrees giving 0..7 FRI layers, every rule and assertion set of the family, x (field, hasher) pairs; for each: a stateright model of the transcript for that configuration is explored exhaustively (invariant: challenge classes are drawn only inside their protocol window); the real prover and the real verify() run with a recording coin and both logs must be behaviours of the model, every absorbed value equal to the value carried in the proof (seed = context || public inputs, roots, OOD hashes recomputed from the proof bytes, FRI commitments, nonce), element types as the options name; prover and verifier logs equal on all used challenges; the nonce replaced by each member of a boundary alphabet (multiples of the modulus, single-bit changes, extremes) must reach the coin unchanged and give pairwise different positions; every context/options parameter changes the coin seed; dependency matrix: one bit of each prover message (every OOD value) flipped => every later challenge changes and every earlier one stays, different public inputs => every challenge changes, public inputs extended by a trailing ONE / ZERO element (8 consecutive statement lengths) => the first challenge changes; non-trivial = configuration whose two logs were replayed (2 traces validated against the implementation each)");
     run.assume("order of draws inside one phase is not constrained (the property does not constrain it); the verifier's extra challenge after the remainder commitment is unused and therefore optional in the model; 'value changes' is probabilistic with error 2^-60");
     let pts = Arc::new(points(thorough));
     let np = pts.len() as u64;
